@@ -59,8 +59,20 @@ var (
 // registered (host-panic panics on purpose).  The returned cancel func
 // releases the deadline context.
 func newRuntime() (*vcommon.Rt, context.CancelFunc) {
+	return newRuntimeVariant(0)
+}
+
+// newRuntimeVariant builds the runtime for a configuration variant:
+//
+//	0  the full C03 configuration
+//	1  "height-only": physical stack height 1000 and the 2 s deadline are the
+//	   only bounds (no step budget, evaluator nesting check disabled).  Used
+//	   for the function-recursion programs only: every level of those pushes a
+//	   call frame, so the physical bound alone must stop them before the Go
+//	   stack is exhausted.
+func newRuntimeVariant(variant int) (*vcommon.Rt, context.CancelFunc) {
 	ctx, cancel := context.WithTimeout(context.Background(), cfgDeadline)
-	rt := vcommon.NewRuntime(vcommon.Cfg{
+	cfg := vcommon.Cfg{
 		MaxSteps:    cfgMaxSteps,
 		MaxPhysical: cfgMaxPhysical,
 		MaxNesting:  cfgMaxNesting,
@@ -70,8 +82,12 @@ func newRuntime() (*vcommon.Rt, context.CancelFunc) {
 		Ctx:         ctx,
 		Profiler:    true,
 		NoProbes:    true,
-	})
-	return rt, cancel
+	}
+	if variant == 1 {
+		cfg.MaxSteps = 0
+		cfg.MaxNesting = -1
+	}
+	return vcommon.NewRuntime(cfg), cancel
 }
 
 // ---------- guarded execution ----------
@@ -218,6 +234,9 @@ func safeText(v *lisp.LVal, depth int, budget *int) string {
 	case lisp.LTaggedVal:
 		return "#{" + v.Str + " " + kids(v.Cells) + "}"
 	case lisp.LNative:
+		if e, ok := v.Native.(error); ok && e != nil {
+			return fmt.Sprintf("#<native error %q>", clip(e.Error(), 200))
+		}
 		return fmt.Sprintf("#<native %T>", v.Native)
 	}
 	return "#<" + v.Type.String() + ">"
@@ -342,9 +361,10 @@ func journal(sub string, c any) {
 
 func TestCheck(t *testing.T) {
 	vcommon.Main(t, "C03",
-		vcommon.S("source-bytes", 48000, 960000, genSource(), checkSource),
-		vcommon.S("apply-registry", 260000, 5200000, genApply(), checkApply),
-		vcommon.S("readers-unlimited", 48000, 960000, genReaderSrc(), checkReaders),
+		vcommon.S("source-bytes", 4000, 400000, genSource(), checkSource),
+		vcommon.S("apply-registry", 32000, 3200000, genApply(), checkApply),
+		vcommon.S("readers-unlimited", 2400, 800000, genReaderSrc(), checkReaders),
 		vcommon.E("source-matrix", enumMatrix, checkSource),
+		vcommon.E("readers-matrix", enumReaderMatrix, checkReaders),
 	)
 }
